@@ -119,7 +119,7 @@ ADDENDA = {
  "C15": " Identifiers include multi-byte letters (exhaustive space + random trees).",
  "C08": " A third of the histories use directory names that sort after gengo.sum (with a root package gengo.sum is then the first name in the module root).",
  "C01": " Also: modules carry long stale <file>.go.tmp left-overs; in half of them every generated file is edited in place (same length, still valid Go) and generated again - it must come back byte-identical; own-module imports next to std imports (module paths without a dot). A quarter of the packages get white-space-only renderings over a previous output; rendered text includes printf verbs and percent signs; a directed search keeps shape sequences that need several formatter passes.",
- "C03": " The path pool includes third-party paths that end in a std package's full path and look-alike struct pairs (typgen.TwinStruct) plus defined pointer/slice/array/channel types. Every snippet value is rendered a second time, in reverse order, into a second writer with its own import table; identifiers include multi-byte letters.",
+ "C03": " The path pool includes third-party paths that end in a std package's full path and look-alike struct pairs (typgen.TwinStruct) plus defined pointer/slice/array/channel types. Every snippet value is rendered a second time, in reverse order, into a second writer with its own import table; identifiers include multi-byte letters; a value literal holding two types with equal package name and type name (apps/v1.Spec, core/v1.Spec) is rendered and every qualifier checked against the import table.",
  "C04": " The observing generator also renders what Decl(pos), LocateInPackage, Context.Package and SourceDir answer; packages hold case-twin type names (T7/t7), same-name dependency packages and are regenerated incrementally vs. in full. Cross-module cases: entrypoints as import paths over two modules in every order, then two forced runs on the result (generated files must be a fixed point). One recorded open finding (D35, known_findings.json) is printed as KNOWN-FINDING.",
  "C05": " Also: an analysing generator renders ResultsOf for every function of the package and of its module-local imports (diamond and mutually recursive call chains across packages), and a go.work workspace scenario runs packages of 2-3 modules with different go directives / dot-less module paths alone vs. together. Process-wide snippet values are rendered into every package; the same struct type is held by a struct of its own package and by one of an importing package.",
  "C07": " Layouts include packages without any type, alias-only packages, nested and look-alike sibling modules, dotted base names and stale temp files. Also: mixed-case generator and base names, wildcard and import-path entrypoints, a package whose path repeats the module path, //line directives in stale outputs and user files, runs started from a package directory; an inotify monitor records every path touched during the run.",
